@@ -179,8 +179,9 @@ def fsync_families(pools=(0, 1, 2)):
     for p in (1, 2):
         out.append(make('FSaw_g_D_Fire_p%d' % p, 1, p, 1, [FS(1, aw=[1], then='await'), D(1)], [FIRE(1)]))
         out.append(make('D_FSdrop_S_p%d' % p, 1, p, 0, [D(1), FS(1, then='drop'), S(1)]))
-        out.append(make('D_FS_PO_DR_S_Fire_p%d' % p, 1, p, 1, [D(1), FS(1, aw=[1], label='f'), PO('f'), DR('f'), S(1)], [FIRE(1)]))
-        out.append(make('FS_PO_PO_DR_D_p%d' % p, 1, p, 1, [FS(1, aw=[1], label='f'), PO('f'), PO('f'), DR('f'), D(1)], [D(1), FIRE(1)]))
+        out.append(make('D_FS_PO_DR_S_p%d' % p, 1, p, 1, [D(1), FS(1, aw=[1], label='f'), PO('f'), DR('f'), S(1), FIRE(1)], [T(1)]))
+        out.append(make('FS_PO_PO_DR_D_p%d' % p, 1, p, 1, [FS(1, aw=[1], label='f'), PO('f'), PO('f'), DR('f'), D(1), FIRE(1)], [D(1)]))
+        out.append(make('FS_PO_Fire_AW_p%d' % p, 1, p, 1, [FS(1, aw=[1], label='f'), PO('f'), FIRE(1), AW('f')], [D(1), S(1)]))
         out.append(make('FS_DR_D_p%d' % p, 1, p, 0, [FS(1, label='f'), DR('f'), D(1)], [T(1)]))
         out.append(make('D_FSaw_S_p%d' % p, 1, p, 0, [D(1), FS(1, then='await')], [S(1)]))
     return out
@@ -233,6 +234,7 @@ def for_property(prop, tier, seed=0):
             fam += three_thread((1, 2))
     elif prop == 'C04':
         fam = core_mix((0, 1) if quick else (0, 1, 2)) + [s for s in future_mix((0, 1) if quick else (0, 1, 2)) if '_S_' in s['name'] or 'FDaw' in s['name']]
+        fam += three_thread((0,))[:1]
         if not quick:
             fam += three_thread((0, 1, 2))
     elif prop == 'C06':
